@@ -23,7 +23,8 @@ for n in names:
             reps=[l.split('replay=')[1].strip() for l in p.stdout.splitlines() if l.startswith('VIOLATION ')]
             if reps and os.environ.get('KEEP_REPLAYS','1')=='1' and os.path.exists(reps[0]) and os.path.getsize(reps[0])<200_000:
                 os.makedirs(f'replays/{prop}',exist_ok=True)
-                import shutil; shutil.copy(reps[0], f'replays/{prop}/{n}.json')
+                import shutil
+                if os.path.abspath(reps[0]) != os.path.abspath(f'replays/{prop}/{n}.json'): shutil.copy(reps[0], f'replays/{prop}/{n}.json')
             r[prop]={'rc':p.returncode,'sigs':sigs[:4],'wall_s':round(time.time()-t,1)}
             print(n,prop,'rc',p.returncode,sigs[:2])
         res[n]={'property':meta['property'],'results':r,'caught':r[meta['property']]['rc']==1}
